@@ -37,3 +37,17 @@ M("C14", "empty-whist-sentinel", [(SU, "                whist[:] = 0\n", "      
 M("C14", "nperbin-rev-sorted-frame", [(SU, "                rev[rev[i]: rev[i + 1]] = w\n", "                rev[rev[i]: rev[i + 1]] = w if i < 3 else rev[rev[i]: rev[i + 1]]\n")],
   "reverse indices of bins >= 3 left in the sorted frame")
 M("C14", "control-center-rewritten", [(SU, 'center = low + 0.5 * self["binsize"]', 'center = low + self["binsize"] / 2.0')], control=True)
+
+# ---- C18
+M("C18", "clip-nonstrict", [(SU, "(np.abs(tarr - m)) < nsig * s", "(np.abs(tarr - m)) <= nsig * s")],
+  "data exactly on the threshold survive")
+M("C18", "wmedian-ge", [(SU, "    while sum > wtot2:", "    while sum >= wtot2:")],
+  "cumulative weight exactly half the total moves the median one datum up")
+M("C18", "interplin-right-uses-first-segment", [(SU, "        xm[w] = x.size - 2\n", "        xm[w] = 0\n")])
+M("C18", "cor2cov-squares-errors", [(SU, "cov[ix, iy] = cor[ix, iy] * diagerr[ix] * diagerr[iy]", "cov[ix, iy] = cor[ix, iy] * diagerr[ix] * diagerr[ix]")])
+M("C18", "wmom-calcerr-unsquared-weights", [(SU, "werr2 = (weights ** 2 * (arr - wmean) ** 2).sum(axis=0)", "werr2 = (weights * (arr - wmean) ** 2).sum(axis=0)")])
+M("C18", "get_stats-err-n-1", [(SU, "        err = std / sqrt(arr.shape[0])\n\n    if doprint:", "        err = std / sqrt(max(arr.shape[0] - 1, 1))\n\n    if doprint:")])
+M("C18", "clip-stats-from-previous-subset", [(SU, "        nold = w.size\n\n        m, e, s = _get_sigma_clip_stats(tarr, weights=tweights)",
+                                               "        nold = w.size\n\n        if i < 3:\n            m, e, s = _get_sigma_clip_stats(tarr, weights=tweights)")],
+  "from the third discarding iteration on the statistics are not recomputed")
+M("C18", "control-wmedian-rewrite", [(SU, "    wtot2 = wtot / 2.0\n", "    wtot2 = 0.5 * wtot\n")], control=True)
